@@ -55,6 +55,9 @@ class PackageLoader(BaseLoader):
     def _resolve_path(self, template_name: str) -> Traversable:
         template_path = Path(template_name)
 
+        if not template_path.name:
+            raise TemplateNotFoundError(template_name)
+
         # Don't build a path that escapes package/package_path.
         # Does ".." appear in template_name? Is it absolute? Joining an absolute
         # path to a package path discards the package path.
